@@ -9,9 +9,13 @@ package main
 import (
 	"sort"
 	"strings"
+	"sync/atomic"
 	"time"
 
+	apierrors "k8s.io/apimachinery/pkg/api/errors"
 	metav1 "k8s.io/apimachinery/pkg/apis/meta/v1"
+	"k8s.io/apimachinery/pkg/runtime"
+	clienttesting "k8s.io/client-go/testing"
 	kubefake "k8s.io/client-go/kubernetes/fake"
 	componentbaseconfig "k8s.io/component-base/config"
 
@@ -29,15 +33,23 @@ type limRig struct {
 	n      int
 	id     string
 	gwfake *gatewayfake.Clientset
+	// failWrites != 0: create/update of RateLimitConditions through the fake API fail with 503
+	failWrites int32
 }
 
 func newLimRig(identity string, shards int, storeKind string) *limRig {
+	return newLimRigWith(identity, shards, storeKind, 0)
+}
+
+// newLimRigWith also sets the sync period of the API-backed ("k8s") store; 0 = write-through.
+func newLimRigWith(identity string, shards int, storeKind string, k8sSyncPeriod time.Duration) *limRig {
 	gw := gatewayfake.NewSimpleClientset()
 	kube := kubefake.NewSimpleClientset()
 	opts := options.RateLimitOptions{
-		ShardingCount: shards,
-		LimitStore:    storeKind,
-		Identity:      identity,
+		ShardingCount:      shards,
+		LimitStore:         storeKind,
+		Identity:           identity,
+		K8sStoreSyncPeriod: k8sSyncPeriod,
 		LeaderElectionConfiguration: componentbaseconfig.LeaderElectionConfiguration{
 			LeaderElect:       true,
 			LeaseDuration:     metav1.Duration{Duration: 15 * time.Second},
@@ -50,7 +62,22 @@ func newLimRig(identity string, shards int, storeKind string) *limRig {
 	}
 	rl, err := limiter.NewRateLimiter(gw, kube, opts)
 	must(err)
-	return &limRig{rl: rl, v: limiter.VerifUnwrap(rl), n: shards, id: identity, gwfake: gw}
+	rig := &limRig{rl: rl, v: limiter.VerifUnwrap(rl), n: shards, id: identity, gwfake: gw}
+	gw.PrependReactor("*", "ratelimitconditions", func(action clienttesting.Action) (bool, runtime.Object, error) {
+		if atomic.LoadInt32(&rig.failWrites) != 0 && (action.GetVerb() == "create" || action.GetVerb() == "update") {
+			return true, nil, apierrors.NewServiceUnavailable("verif: injected API outage")
+		}
+		return false, nil, nil
+	})
+	return rig
+}
+
+func (r *limRig) setFailWrites(on bool) {
+	v := int32(0)
+	if on {
+		v = 1
+	}
+	atomic.StoreInt32(&r.failWrites, v)
 }
 
 func (r *limRig) setCluster(c *proxyv1alpha1.UpstreamCluster) {
